@@ -10,6 +10,9 @@ use crate::verif_env as env;
 use crate::verif_lib::sq_from;
 use std::sync::atomic::Ordering;
 
+/// Re-export of the instrumented buffer (io::traits is a private module).
+pub(crate) use super::traits::verif_traits::{TB, any_tb};
+
 // =========================================================================================
 // C07  c07.close.consumes — AsyncFd::close consumes the AsyncFd without running its Drop: it issues no request
 //      and no close itself, and the Close operation carries exactly the descriptor and kind.
